@@ -7,6 +7,7 @@ import StarsimModel.Model.Rng
 import StarsimModel.Generated.GlobalReads
 import StarsimModel.Generated.SeedFacts
 import StarsimModel.Generated.RngConsts
+import StarsimModel.Lemmas.RngFrame
 
 namespace StarsimModel.C01
 open StarsimModel.Footprint StarsimModel.Rng
@@ -75,6 +76,21 @@ theorem C01_no_shared_mutable_state : Gen.sharedMutables = [] := by decide
 /-- the only writes to the global generators are the deliberate reseeding in `set_seed` -/
 theorem C01_writes_are_reseeding :
     ∀ r ∈ Gen.globalWrites, r.1 = "starsim/utils.py" ∧ r.2.2.2 = "write:np.random.seed" := by decide
+
+/-! ### Every stream is a function of its own history
+
+A draw is identified by the seed of its distribution and the generator position it starts from
+(`default_rng(seed)`, jumped `ind` times, advanced by the sizes drawn since).  In a simulation with any number of
+distributions, the positions a distribution draws from are determined by the operations addressed to IT: nothing that
+happens to another distribution — in this simulation or in any other run in the same process — enters. -/
+
+/-- **Stream determinism.** Two executions (possibly with different other distributions, different interleavings) in
+    which a distribution has the same seed state and receives the same operations use exactly the same
+    `(seed, position)` pairs for its draws, in the same order. -/
+theorem C01_stream_deterministic (ds ds' : List Dist) (ops ops' : List (Nat × Op)) (i k : Nat) (d : Dist)
+    (h : ds[i]? = some d) (h' : ds'[k]? = some d) (hops : opsOf i ops = opsOf k ops') :
+    (logOf i (runMany ds ops).2).map (fun p => (d.seed, p)) = (logOf k (runMany ds' ops').2).map (fun p => (d.seed, p)) := by
+  rw [(runMany_frame ds ds' ops ops' i k d h h' hops).1]
 
 /-! ### Seeds -/
 
